@@ -207,6 +207,19 @@ _NATIVE_METHODS = {
 
 _PURE_STDLIB = {"struct", "bisect", "operator", "math", "re", "itertools", "functools", "string"}
 
+
+def _suppress(*types):
+    return Obj(None, __suppress__=list(types))
+
+
+def _extra_external(interp, key: str):
+    """Standard-library names with native semantics that need no per-check stub."""
+    import collections as _c
+    table = {"collections.Counter": _c.Counter, "collections.deque": _c.deque, "collections.OrderedDict": _c.OrderedDict,
+             "collections.defaultdict": _c.defaultdict, "collections.ChainMap": _c.ChainMap, "contextlib.suppress": _suppress,
+             "dataclasses.replace": interp._dc_replace, "copy.copy": None, "typing.cast": lambda t, v: v}
+    return table.get(key)
+
 _BINOPS = {
     ast.Add: _op.add, ast.Sub: _op.sub, ast.Mult: _op.mul, ast.FloorDiv: _op.floordiv, ast.Mod: _op.mod,
     ast.Pow: _op.pow, ast.LShift: _op.lshift, ast.RShift: _op.rshift, ast.BitAnd: _op.and_, ast.BitOr: _op.or_,
@@ -346,9 +359,10 @@ class Interp:
                 return x
             args = [wrap(a) for a in args]
             kwargs = {k: wrap(v) for k, v in kwargs.items()}
-            if f in _ITER_BUILTINS:
+            if f in _ITER_BUILTINS or f is _b_sum:
                 args = [list(a.attrs["__iter__"]) if isinstance(a, Obj) and "__iter__" in a.attrs else
-                        (list(a.attrs["__items__"]) if isinstance(a, Obj) and "__items__" in a.attrs else a) for a in args]
+                        (list(a.attrs["__items__"]) if isinstance(a, Obj) and "__items__" in a.attrs else
+                         (self.iterate(a, node) if isinstance(a, Obj) and self._dunder(a, "__iter__") is not None else a)) for a in args]
             try:
                 return f(*args, **kwargs)
             except (Raised, Unsupported):
@@ -357,7 +371,24 @@ class Interp:
                 raise
             except Exception as e:   # native semantics of a model callable
                 raise Raised(ExcVal(type(e).__name__, e.args), node)
+        m = self._dunder(f, "__call__")
+        if m is not None:
+            return self.call_value(m, args, kwargs, node)
         raise Raised(ExcVal("TypeError", (f"{f!r} is not callable",)), node)
+
+    def _dc_replace(self, obj, **changes):
+        """dataclasses.replace: a new instance built by the class's constructor from the current fields plus changes."""
+        if not (isinstance(obj, Obj) and obj.cls in self.prog.classes and "dataclass" in self.prog.classes[obj.cls].decorators):
+            raise Unsupported("dataclasses.replace on a non-dataclass model value")
+        fields = {}
+        for cname in reversed(self.prog.mro(obj.cls)):
+            ci = self.prog.classes.get(cname)
+            if ci is not None:
+                for fname in ci.ann_attrs:
+                    if fname in obj.attrs:
+                        fields[fname] = obj.attrs[fname]
+        fields.update(changes)
+        return self._construct(ClassRef(obj.cls), [], fields, None)
 
     def _construct(self, c: ClassRef, args, kwargs, node):
         name = c.name
@@ -386,6 +417,30 @@ class Interp:
                     return NTClass(name, fields, cls=name)(*args, **kwargs)
                 except TypeError as e:
                     raise Raised(ExcVal("TypeError", e.args), node)
+        bases_txt = [dotted(b) or "" for b in ci.node.bases]
+        if any(b.split(".")[-1] == "NamedTuple" for b in bases_txt):
+            # class NT(typing.NamedTuple): fields are the annotated names in order, defaults their class-level values
+            fields = list(ci.ann_attrs)
+            kw = dict(kwargs)
+            for fname in fields[len(args):]:
+                ann = ci.ann_attrs[fname]
+                if fname not in kw and ann.value is not None:
+                    kw[fname] = self._eval_class_attr_raw(ci, ann.value)
+            try:
+                return NTClass(name, fields, cls=name)(*args, **kw)
+            except TypeError as e:
+                raise Raised(ExcVal("TypeError", e.args), node)
+        if any(b.split(".")[-1] in ("Enum", "IntEnum", "IntFlag", "Flag", "StrEnum") for b in bases_txt) or \
+                any(self.prog.is_subclass(name, b) for b in ("Enum", "IntEnum")):
+            # Enum(value): the member with that value (members are modelled by their values)
+            if len(args) != 1 or kwargs:
+                raise Raised(ExcVal("TypeError", ("enum lookup takes one value",)), node)
+            for aname, aex in ci.attrs.items():
+                if not aname.startswith("_"):
+                    mv = self._eval_class_attr(ci, aex)
+                    if type(mv) is type(args[0]) and mv == args[0] or (isinstance(mv, int) and isinstance(args[0], int) and mv == args[0]):
+                        return mv
+            raise Raised(ExcVal("ValueError", (f"{args[0]!r} is not a valid {name}",)), node)
         obj = Obj(name)
         if "dataclass" in ci.decorators:
             fields = []
@@ -603,14 +658,26 @@ class Interp:
                 else:
                     raise Unsupported(f"del {unparse(t)}")
         elif isinstance(st, ast.With):
+            suppress = []
             for it in st.items:
                 v = self.eval(it.context_expr, env)
+                if isinstance(v, Obj) and "__suppress__" in v.attrs:
+                    suppress.extend(v.attrs["__suppress__"])
                 if it.optional_vars is not None:
                     self.assign(it.optional_vars, v, env)
-            self.exec_block(st.body, env)
+            if suppress:
+                try:
+                    self.exec_block(st.body, env)
+                except Raised as r:
+                    if not any(self.isinstance(r.exc, t, st) for t in suppress):
+                        raise
+            else:
+                self.exec_block(st.body, env)
         elif isinstance(st, ast.Nonlocal):
             env.vars.setdefault("__nonlocal__", set()).update(st.names)
-        elif isinstance(st, (ast.Import, ast.ImportFrom, ast.Global)):
+        elif isinstance(st, ast.Global):
+            env.vars.setdefault("__global__", set()).update(st.names)
+        elif isinstance(st, (ast.Import, ast.ImportFrom)):
             raise Unsupported(f"statement {type(st).__name__}")
         else:
             raise Unsupported(f"statement {type(st).__name__}")
@@ -676,10 +743,34 @@ class Interp:
                 if not self.match_pattern(sub, v, env, binds):
                     return False
             return True
+        if isinstance(p, ast.MatchMapping):
+            if isinstance(subj, Obj) and "__items__" in subj.attrs:
+                d = subj.attrs["__items__"]
+            elif isinstance(subj, dict):
+                d = subj
+            else:
+                return False
+            used = []
+            for k, sub in zip(p.keys, p.patterns):
+                kv = self.eval(k, env)
+                if kv not in d:
+                    return False
+                used.append(kv)
+                if not self.match_pattern(sub, d[kv], env, binds):
+                    return False
+            if p.rest is not None:
+                binds[p.rest] = {k: v for k, v in d.items() if k not in used}
+            return True
         raise Unsupported(f"match pattern {type(p).__name__}")
 
     def assign(self, t: ast.AST, v, env: Env):
         if isinstance(t, ast.Name):
+            ok, gl = env.lookup("__global__")
+            if ok and gl and t.id in gl:
+                rel = env.lookup("__relpath__")[1]
+                self.__dict__.setdefault("_mc_cache", {})[(rel, t.id)] = v      # module-level variable of this interpreter run
+                self.event("global-store", rel, t.id)
+                return
             env.set(t.id, v)
         elif isinstance(t, (ast.Tuple, ast.List)):
             vals = list(self.iterate(v, t))
@@ -736,6 +827,14 @@ class Interp:
             raise Unsupported(f"assignment target {type(t).__name__}")
 
     # ------------------------------------------------------------------ expressions
+    def _dunder(self, v, name: str):
+        """Program-defined special method of a model instance (None if the class does not define it)."""
+        if isinstance(v, (Obj, _NativeModel)) and getattr(v, "cls", None) and v.cls in self.prog.classes:
+            fi = self.prog.resolve_method(v.cls, name)
+            if fi is not None:
+                return BoundMethod(fi, v)
+        return None
+
     def truth(self, v, node=None) -> bool:
         if isinstance(v, Sym):
             hook = self.ext.get("truth")
@@ -749,6 +848,12 @@ class Interp:
                 return bool(v.attrs["__items__"])
             if "__truth__" in v.attrs:
                 return bool(v.attrs["__truth__"])
+            m = self._dunder(v, "__bool__")
+            if m is not None:
+                return bool(self.call_value(m, [], {}, node))
+            m = self._dunder(v, "__len__")
+            if m is not None:
+                return self.call_value(m, [], {}, node) != 0
             return True
         if isinstance(v, (ClassRef, Closure, BoundMethod, ExcVal)):
             return True
@@ -767,8 +872,19 @@ class Interp:
             return list(v.attrs["__items__"].keys())
         if isinstance(v, Obj) and "__iter__" in v.attrs:
             return list(v.attrs["__iter__"])
+        m = self._dunder(v, "__iter__") if isinstance(v, Obj) else None
+        if m is not None:
+            return self.iterate(self.call_value(m, [], {}, node), node)
+        import collections as _c
+        if isinstance(v, (_c.deque, memoryview)):
+            return list(v)
         if hasattr(v, "__iter__") and type(v).__name__ in ("generator", "map", "zip", "enumerate", "reversed",
-                                                           "list_iterator", "filter"):
+                                                           "list_iterator", "filter", "chain", "islice", "tuple_iterator",
+                                                           "range_iterator", "dict_keyiterator", "list_reverseiterator",
+                                                           "zip_longest", "accumulate", "product", "pairwise", "starmap",
+                                                           "takewhile", "dropwhile", "bytes_iterator", "str_ascii_iterator",
+                                                           "set_iterator", "dict_valueiterator", "dict_itemiterator", "groupby",
+                                                           "repeat", "cycle", "compress", "permutations", "combinations"):
             return list(v)
         raise Unsupported(f"iteration over {type(v).__name__} at line {getattr(node, 'lineno', '?')}")
 
@@ -809,7 +925,13 @@ class Interp:
                 except Exception as e:
                     raise Raised(ExcVal(type(e).__name__, e.args), node)
             else:
-                raise Unsupported(f"membership in {type(b).__name__}")
+                m = self._dunder(b, "__contains__")
+                if m is not None:
+                    r = self.truth(self.call_value(m, [a], {}, node), node)
+                elif self._dunder(b, "__iter__") is not None:
+                    r = any(self.py_eq(a, x, node) for x in self.iterate(b, node))
+                else:
+                    raise Unsupported(f"membership in {type(b).__name__}")
             return r if isinstance(op, ast.In) else not r
         f = _CMPOPS[type(op)]
         if isinstance(op, (ast.Eq, ast.NotEq)) and (_has_obj(a) or _has_obj(b)):
@@ -964,6 +1086,9 @@ class Interp:
                 tgt = m.imports[name]
                 if tgt in self.ext:
                     return self.ext[tgt]
+                x = _extra_external(self, tgt)
+                if x is not None:
+                    return x
                 if tgt == "collections.namedtuple":
                     return _BUILTINS["namedtuple"]
                 if tgt.split(".")[0] in _PURE_STDLIB and "." in tgt:
@@ -1072,6 +1197,9 @@ class Interp:
                 key = base.attrs["__extmodule__"] + "." + attr
                 if key in self.ext:
                     return self.ext[key]
+                x = _extra_external(self, key)
+                if x is not None:
+                    return x
                 modname = base.attrs["__extmodule__"]
                 if modname in _PURE_STDLIB:
                     mod = __import__(modname)
@@ -1138,7 +1266,14 @@ class Interp:
                     return getattr(base, attr)
             if isinstance(base, bool) and attr in _NATIVE_METHODS[int]:
                 return getattr(base, attr)
+            if attr == "value" and isinstance(base, (int, str)) and not isinstance(base, (bool, _NativeModel)):
+                return base            # enum members are modelled by their values
             hook = self.ext.get("native_attr")
+            if hook is None and not attr.startswith("_"):
+                # any public method of a built-in value: CPython's own semantics apply
+                for t in (bytes, str, int, float, tuple, frozenset, list, dict, set, bytearray):
+                    if isinstance(base, t) and hasattr(t, attr):
+                        return getattr(base, attr)
             if hook is not None:
                 r = hook(base, attr)
                 if r is not NotImplemented:
@@ -1151,6 +1286,15 @@ class Interp:
                 if r is not NotImplemented:
                     return r
             raise Unsupported(f"attribute {attr} of opaque {base!r}")
+        if isinstance(base, type) and attr in ("__name__", "__qualname__"):
+            return base.__name__
+        if isinstance(base, type) and getattr(base, "__module__", "") in ("itertools", "collections", "functools", "operator") \
+                and not attr.startswith("_") and hasattr(base, attr):
+            return getattr(base, attr)
+        import collections as _c2
+        if isinstance(base, (_c2.deque, _c2.Counter, _c2.OrderedDict, _c2.ChainMap, memoryview)) and not attr.startswith("_") \
+                and hasattr(base, attr):
+            return getattr(base, attr)
         if base in (int, float, str, bytes, list, dict, bool):
             key = f"{base.__name__}.{attr}"
             if key in ("int.from_bytes", "int.to_bytes", "bytes.fromhex", "bool.__repr__", "dict.fromkeys"):
@@ -1177,11 +1321,20 @@ class Interp:
                 raise Raised(ExcVal("KeyError", (key,)), e)
         if isinstance(base, Obj) and "__getitem__" in base.attrs:
             return base.attrs["__getitem__"](key)
-        if isinstance(base, (list, tuple, dict, str, bytes, bytearray, range)):
+        import collections as _c
+        if isinstance(base, (list, tuple, dict, str, bytes, bytearray, range, memoryview, _c.deque)):
             try:
                 return base[key]
             except Exception as ex:
                 raise Raised(ExcVal(type(ex).__name__, ex.args), e)
+        m = self._dunder(base, "__getitem__")
+        if m is not None:
+            return self.call_value(m, [key], {}, e)
+        if isinstance(base, ClassRef) and isinstance(key, str) and base.name in self.prog.classes:
+            ci, ex = self.prog.resolve_attr(base.name, key)       # Enum['NAME']
+            if ex is not None:
+                return self._eval_class_attr(ci, ex)
+            raise Raised(ExcVal("KeyError", (key,)), e)
         raise Unsupported(f"subscript of {type(base).__name__}: {unparse(e)[:60]}")
 
     def ev_Slice(self, e, env):
@@ -1384,7 +1537,15 @@ class Interp:
                     return ClassRef(v.cls)
                 if isinstance(v, _NATIVE_TYPES):
                     return type(v)
+                if isinstance(v, ExcVal):
+                    return ClassRef(v.tname)
                 raise Unsupported("type() of opaque value")
+            if d == "len" and len(e.args) == 1 and not e.keywords:
+                v = self.eval(e.args[0], env)
+                m = self._dunder(v, "__len__") if isinstance(v, Obj) else None
+                if m is not None:
+                    return self.call_value(m, [], {}, e)
+                return self.call_value(self.eval(e.func, env), [v], {}, e)
             if d == "getattr" and len(e.args) >= 2:
                 base = self.eval(e.args[0], env)
                 name = self.eval(e.args[1], env)
@@ -1395,6 +1556,27 @@ class Interp:
                 except Raised as r:
                     if len(e.args) == 3 and r.exc.tname == "AttributeError":
                         return self.eval(e.args[2], env)
+                    raise
+                except Unsupported:
+                    if len(e.args) == 3 and isinstance(base, _NATIVE_TYPES) and not isinstance(base, _NativeModel) \
+                            and not hasattr(base, name):
+                        return self.eval(e.args[2], env)
+                    raise
+            if d == "hasattr" and len(e.args) == 2:
+                base = self.eval(e.args[0], env)
+                name = self.eval(e.args[1], env)
+                if not isinstance(name, str):
+                    raise Unsupported("hasattr with non-string name")
+                try:
+                    self.getattr(base, name, e, env)
+                    return True
+                except Raised as r:
+                    if r.exc.tname == "AttributeError":
+                        return False
+                    raise
+                except Unsupported:
+                    if isinstance(base, _NATIVE_TYPES) and not isinstance(base, _NativeModel):
+                        return hasattr(base, name)
                     raise
             f = self.eval(e.func, env)
         args = self._elts(e.args, env)
@@ -1543,8 +1725,8 @@ _BUILTINS = {
     "namedtuple": lambda name, fields, **k: NTClass(name, fields),
     "len": len, "min": min, "max": max, "all": all, "any": any, "range": range, "int": int, "float": float,
     "bool": bool, "str": str, "list": list, "tuple": tuple, "dict": dict, "set": set, "frozenset": frozenset,
-    "sum": _b_sum, "sorted": sorted, "reversed": lambda x: list(reversed(x)), "enumerate": lambda x, s=0: list(enumerate(x, s)),
-    "zip": lambda *a: list(zip(*a)), "abs": abs, "repr": repr, "bytes": bytes, "print": lambda *a, **k: None,
+    "sum": _b_sum, "sorted": sorted, "reversed": lambda x: list(reversed(x)), "enumerate": lambda x, start=0: list(enumerate(x, start)),
+    "zip": lambda *a, strict=False: list(zip(*a, strict=strict)), "abs": abs, "repr": repr, "bytes": bytes, "print": lambda *a, **k: None,
     "divmod": divmod, "round": round, "callable": callable, "NotImplemented": NotImplemented,
     "next": _b_next, "iter": lambda x: x, "map": lambda f, *a: list(map(f, *a)), "filter": lambda f, a: list(filter(f, a)),
     "ord": ord, "chr": chr, "hex": hex, "bin": bin, "pow": pow, "id": id, "hash": hash, "format": format, "ascii": ascii,
